@@ -44,6 +44,9 @@ man = {
          "kind_free_text": "Kani 0.68 / CBMC 6.11 function contracts and harness-stated contracts on the real crates (snapshot + injected child modules), concrete-playback replay"},
         {"name": "V", "path": "/verif/lib/verus_engine.py", "serves_properties": sorted({p for p in meta if meta[p].get("verus")}),
          "kind_free_text": "Verus 0.2026.09.13 on functions extracted mechanically from /repo each run, spliced with requires/ensures/invariants kept under /verif/contracts/verus"},
+        {"name": "N", "path": "/verif/lib/native_engine.py",
+         "serves_properties": sorted({p for u in (read_json(os.path.join(VERIF, "contracts", "native", "units.json")) or []) for p in u["props"]}),
+         "kind_free_text": "NOT a verifier: bounded stand-ins by native enumeration for functions out of both verifiers' reach - the real code compiled natively (release) and run on every input of a stated finite domain, executable postcondition evaluated on each result (CPython 3.11 as the reference where the clause says Python's); records labelled bounded, never counted as proved"},
     ],
     "checks": checks,
     "not_applicable": not_app,
